@@ -51,6 +51,10 @@ CHECKS = {
    technique="exhaustive enumeration of all byte strings up to length 2-3 and of the complete single-step mutation space of a corpus of valid messages through the real parsers and handlers, in a child process with tracker-sized stacks and a counting allocator",
    text="18 parser entry points (UDP request x 4 limits, UDP replies, HTTP request / path / socket-level parse with and without proxy header, bencode replies, JSON in/out as text and binary, peer-id client, access-list line) x (every byte string of length <= 2; every truncation, 1-4 byte extension, single-bit flip, single-byte substitution by all 256 values, deletion and duplication of ~45 valid messages; 627 structural extremes incl. nesting to 32768 and 64 KiB strings), plus 34k extreme-field requests through the real UDP / HTTP / WS handlers x limits {0,1,2,default} x swarm sizes. No panic (overflow checks on), no process death, allocation <= 64 x len + 64 KiB.",
    note="Two-step mutations and inputs longer than the corpus messages are not enumerated; Connection::read_request's documented panic on a missing proxy header is out of scope."),
+ "C04": dict(level="model_checking", engine="coop", ref="§3 C04",
+   technique="stateless exploration of all thread interleavings at lock-operation granularity (CHESS-style controlled scheduler over real threads, prefix replay), per-torrent linearizability oracle",
+   text="Real OS threads run announce / scrape / clean on the real shared TorrentMaps; the instrumented RwLock (hook H3) yields to a baton scheduler at every acquire, upgrade and release, a mirror lock table decides enabledness (so deadlock = no enabled thread) and every interleaving is enumerated by DFS with prefix replay: all 2-thread one-operation programs over 9 operations x 4 initial states exhaustively, 3-thread programs and 2-operation programs under an iterated preemption bound, two concurrent cleaning passes with every lock operation of all 32 shards a choice point. Every execution's call/return history must be linearizable per torrent (brute force over orders) including the quiescent final state, so an answered announce lost to a concurrent cleaning pass is a violation.",
+   note="Sequential consistency; mirror lock table assumed faithful to parking_lot; footprint reduction (locks touched by one thread are not choice points) asserted at run time and cross-checked; preemption bounds as reported in the evidence."),
 }
 
 NOT_YET = {}
